@@ -93,22 +93,22 @@ type run struct {
 	pushPhase bool
 	errRand   *rand.Rand
 
-	probe        map[int64]int64 // channel -> marker to attach to its next channelDifference response
-	waiters      map[int64]chan struct{}
-	seen         map[int64]bool
-	genuineChTL  map[int64]int // channelDifferenceTooLong responses whose callback has not been seen yet
-	wprobePushed map[int64]int // worker probes pushed so far
-	wprobeCount  map[int64]int // probe callbacks seen so far
-	wprobeNeed   map[int64]int // the waiter is released when wprobeCount reaches this
-	wprobeWait   map[int64]chan struct{}
-	nextMarker   int64
-	strays       int
-	badHash      int
-	storm        bool
-	chain        map[string]int // position of the next request in the current chain, per sequence
-	errBudget    map[string]int
-	tlBudget     map[string]int
-	tracked      map[int64]bool // channels the library has a worker for (from the image, or first seen during the run)
+	probe          map[int64]int64 // channel -> marker to attach to its next channelDifference response
+	waiters        map[int64]chan struct{}
+	seen           map[int64]bool
+	genuineChTL    map[int64]int           // channelDifferenceTooLong responses whose callback has not been seen yet
+	inboxWait      map[int64]chan struct{} // per channel: waiter for the count-0 worker probe
+	inboxMin       map[int64]int64         // smallest probe id of the current round
+	farCallbacks   int
+	unreportedChTL int
+	nextMarker     int64
+	strays         int
+	badHash        int
+	storm          bool
+	chain          map[string]int // position of the next request in the current chain, per sequence
+	errBudget      map[string]int
+	tlBudget       map[string]int
+	tracked        map[int64]bool // channels the library has a worker for (from the image, or first seen during the run)
 
 	mgr     *updates.Manager
 	cancel  context.CancelFunc
@@ -121,8 +121,7 @@ func newRun(sc *scenario, initial *snapshot, occurred int, pushPhase bool, seed 
 		sc: sc, watchdog: 25 * time.Second, store: initial.clone(), occurred: occurred, pushPhase: pushPhase,
 		errRand: rand.New(rand.NewPCG(seed, uint64(sc.Idx)+77)),
 		probe:   map[int64]int64{}, waiters: map[int64]chan struct{}{}, seen: map[int64]bool{},
-		genuineChTL: map[int64]int{}, wprobePushed: map[int64]int{}, wprobeCount: map[int64]int{}, wprobeNeed: map[int64]int{},
-		wprobeWait: map[int64]chan struct{}{},
+		genuineChTL: map[int64]int{}, inboxWait: map[int64]chan struct{}{}, inboxMin: map[int64]int64{},
 		nextMarker: markerBase, tracked: map[int64]bool{}, chain: map[string]int{}, errBudget: map[string]int{}, tlBudget: map[string]int{},
 	}
 	// Manager.loadChannels tracks every stored channel whose access hash is known.
@@ -686,8 +685,18 @@ func (r *run) Handle(ctx context.Context, u tg.UpdatesClass) error {
 			}
 			continue
 		}
-		if _, ok := up.(*tg.UpdateReadChannelInbox); ok {
-			continue // count-0 noise, not a log entry
+		if in, ok := up.(*tg.UpdateReadChannelInbox); ok {
+			// Barrier probe: a count-0 channel update at the channel head, carrying a
+			// marker in MaxID. It reaches the handler only through the worker's queue
+			// and sequence box, behind everything queued before it. (MaxID 1 = noise.)
+			if id := int64(in.MaxID); id >= markerBase {
+				r.rec(tev{T: "marker", M: id, Ch: in.ChannelID})
+				if w := r.inboxWait[in.ChannelID]; w != nil && id >= r.inboxMin[in.ChannelID] {
+					close(w)
+					delete(r.inboxWait, in.ChannelID)
+				}
+			}
+			continue // count-0, not a log entry
 		}
 		k, uid, ok := identify(up)
 		e := r.sc.byUID[uid]
@@ -717,13 +726,9 @@ func (r *run) onChannelTooLong(ch int64) {
 		r.rec(tev{T: "chtoolong", Ch: ch})
 		return
 	}
-	// Barrier probe (updateChannelTooLong with a far-away pts): proves the channel
-	// worker consumed everything queued before it.
-	r.wprobeCount[ch]++
-	if w := r.wprobeWait[ch]; w != nil && r.wprobeCount[ch] >= r.wprobeNeed[ch] {
-		close(w)
-		delete(r.wprobeWait, ch)
-	}
+	// Callback for a pushed updateChannelTooLong with a far-away pts (workload, not
+	// a barrier: the library only reports, it skips nothing).
+	r.farCallbacks++
 }
 
 // ---- storage / hashers -----------------------------------------------------------
@@ -784,7 +789,17 @@ func (s recStorage) GetChannelPts(ctx context.Context, userID, channelID int64) 
 }
 
 func (s recStorage) SetChannelPts(ctx context.Context, userID, channelID int64, pts int) error {
-	return s.write(tev{W: "SetChannelPts", Ch: channelID, Pts: pts}, func(st *snapshot) { st.Ch[channelID] = pts })
+	return s.write(tev{W: "SetChannelPts", Ch: channelID, Pts: pts}, func(st *snapshot) {
+		st.Ch[channelID] = pts
+		// A channelDifferenceTooLong answer is reported BEFORE the skipped position
+		// is persisted. If the write comes first the answer went unreported: later
+		// callbacks (for pushed far-pts updateChannelTooLong) must not be credited
+		// to it.
+		if s.r.genuineChTL[channelID] > 0 {
+			s.r.genuineChTL[channelID] = 0
+			s.r.unreportedChTL++
+		}
+	})
 }
 
 func (s recStorage) ForEachChannels(ctx context.Context, userID int64, f func(ctx context.Context, channelID int64, pts int) error) error {
@@ -1032,14 +1047,31 @@ func (r *run) newMarker() (int64, chan struct{}) {
 //     attaches a probe marker to the next response of that channel, it returns to the
 //     handler through worker -> internal queue -> main loop, i.e. behind everything the
 //     worker handed to the main loop before
-//  3. updateChannelTooLong with a far pts  -> the worker only calls OnChannelTooLong: proves
-//     it finished the difference and consumed what the main loop queued before
+//  3. a count-0 updateReadChannelInbox at the channel head carrying a fresh marker -> it passes
+//     the worker's queue and sequence box and reaches the handler: proves the worker finished
+//     the difference and consumed what the main loop queued before (no library callback involved;
+//     the far-pts updateChannelTooLong pushed at the start of the round is workload only)
 //  4. a marker through the external queue  -> main loop consumed everything pushed so far
 //
 // It reports whether the round was a fixpoint: no log entry reached the handler
 // and no difference response carried a log entry.
 func (r *run) round() (fixpoint, ok bool) {
 	from := r.traceLen()
+	// Workload, not barrier: an updateChannelTooLong far ahead of every tracked
+	// channel. The library must report it (OnChannelTooLong) and skip nothing.
+	r.mu.Lock()
+	var far []tg.UpdateClass
+	for _, ch := range r.sc.Chans {
+		if r.tracked[ch.ID] {
+			t := &tg.UpdateChannelTooLong{ChannelID: ch.ID}
+			t.SetPts(probePts)
+			far = append(far, t)
+		}
+	}
+	r.mu.Unlock()
+	if len(far) > 0 && !r.push(&tg.Updates{Updates: far}) {
+		return false, false
+	}
 	if !r.push(&tg.UpdatesTooLong{}) {
 		return false, false
 	}
@@ -1084,20 +1116,20 @@ func (r *run) round() (fixpoint, ok bool) {
 		ch := ch
 		w := make(chan struct{})
 		r.mu.Lock()
-		// Probes of earlier rounds that were re-sent may still call back; a probe is
-		// anonymous, so wait until more callbacks arrived than probes were pushed
-		// before this round: at least one of them then belongs to this round, and
-		// the worker queue is FIFO.
-		r.wprobeNeed[ch.ID] = r.wprobePushed[ch.ID] + 1
-		r.wprobeWait[ch.ID] = w
+		_, head := r.visible(clsChan, ch.ID)
+		r.inboxMin[ch.ID] = r.nextMarker + 1
+		r.inboxWait[ch.ID] = w
 		r.mu.Unlock()
+		// Worker probe: a count-0 update at the channel head with a fresh marker. The
+		// worker has finished the difference above (its state is the head), so its box
+		// applies the probe and the handler sees it, after everything the main loop
+		// queued for the worker before. Independent of any library callback.
 		probe := func() {
-			t := &tg.UpdateChannelTooLong{ChannelID: ch.ID}
-			t.SetPts(probePts)
 			r.mu.Lock()
-			r.wprobePushed[ch.ID]++
+			r.nextMarker++
+			id := r.nextMarker
 			r.mu.Unlock()
-			r.push(&tg.Updates{Updates: []tg.UpdateClass{t}})
+			r.push(&tg.Updates{Updates: []tg.UpdateClass{&tg.UpdateReadChannelInbox{ChannelID: ch.ID, MaxID: int(id), Pts: head}}})
 		}
 		probe()
 		if !r.await(w, fmt.Sprintf("channel %d worker probe", ch.ID), probe) {
